@@ -52,6 +52,10 @@ func baseProfile(r *rand.Rand) *profile.Profile {
 		// profile-diff shape: entries whose values cancel to zero are not shown, and no edge may refer to them
 		s := p.Sample[r.Intn(len(p.Sample))]
 		neg := &profile.Sample{Location: s.Location, Label: s.Label, NumLabel: s.NumLabel, NumUnit: s.NumUnit, Value: []int64{-s.Value[0], -s.Value[1]}}
+		if r.Intn(2) == 0 {
+			// ... while the numeric tags of the two differ (the sizes changed between the two runs)
+			neg.NumLabel = map[string][]int64{"bytes": {32}}
+		}
 		p.Sample = append(p.Sample, neg)
 	}
 	return p
@@ -293,6 +297,9 @@ func checkCallgrind(out string, p *profile.Profile, index int) string {
 		}
 	}
 	var want int64
+	if index < 0 {
+		return "" // costs are scaled: only the grammar and the positions are checked
+	}
 	for _, s := range p.Sample {
 		if len(s.Location) > 0 {
 			want += s.Value[index]
@@ -317,9 +324,24 @@ func runCallgrind(c *harness.Ctx) harness.Result {
 	p := baseProfile(r)
 	plant(p, site, h)
 	opts := map[string]bool{"call_tree": r.Intn(2) == 0}
-	desc := fmt.Sprintf("site=%s hostile=%q %v", site, h, opts)
+	// coarse output units and per-sample means make small costs print as 0
+	strs := map[string]string{}
+	index := 1
+	switch r.Intn(4) {
+	case 0:
+		for _, st := range p.SampleType {
+			st.Unit = "nanoseconds"
+		}
+		plant(p, site, h)
+		strs["unit"] = []string{"s", "hours", "ms", "us"}[r.Intn(4)]
+		index = -1
+	case 1:
+		opts["mean"] = true
+		index = -1
+	}
+	desc := fmt.Sprintf("site=%s hostile=%q %v %v", site, h, opts, strs)
 	res := harness.Result{NonTrivial: true, Sig: desc, Sample: map[string]any{"site": site, "string": h}}
-	out, e := render(p, "callgrind", opts, nil)
+	out, e := render(p, "callgrind", opts, strs)
 	c.Stat("callgrind_documents", 1)
 	if e != "" {
 		if strings.HasPrefix(e, "panic") {
@@ -327,7 +349,7 @@ func runCallgrind(c *harness.Ctx) harness.Result {
 		}
 		return res
 	}
-	if msg := checkCallgrind(out, p, 1); msg != "" {
+	if msg := checkCallgrind(out, p, index); msg != "" {
 		res.Verdict = harness.Violated
 		res.Detail = fmt.Sprintf("%s: callgrind output: %s\n%s", desc, msg, harness.Trunc(out, 3000))
 	}
